@@ -209,6 +209,41 @@ def C07(run):
     interp(run, 'MU')
 
 
+def lintjob(run, kind, family):
+    tlc_replay(run, 'lint-' + kind, 'MC_Lint.tla', 'MC_Lint_%s_%s.cfg' % (kind, run.tier), family)
+
+
+def C16(run):
+    run.rule = ('Visitor.tla defines the callback sequence and the exact fold term (Default / Leaf / Comb) of the expression-visiting runner; '
+                'TLC checks each-once-in-order against an independent node inventory on every tree of the family (every node type in every '
+                'child position); a recording visitor implemented outside the crate must produce the same log and term, and for EVERY '
+                'choice of the failing callback the walk must stop there and return that error; non-trivial = more than one callback')
+    lintjob(run, 'visit', 'visit')
+
+
+def C17(run):
+    run.rule = ('Lint.tla defines both constant folders; TLC checks FoldSound (a reported value equals the value the abstract machine '
+                'computes for the expression) and FoldExact (reported exactly for pure arithmetic) on all expressions of the family '
+                '(atoms of every kind, unary, binary with single and list operands, depth 2-3); the real folders must agree with the model '
+                '(value or refusal class) and the real interpreter must compute every reported value; non-trivial = a value is reported')
+    lintjob(run, 'fold', 'fold')
+
+
+def C18(run):
+    run.rule = ('every assignment form x right-hand side of the family (constants incl. 0, fractions, negatives, -0, inf, NaN, strings with '
+                'blanks / line breaks, non-constants, list operands) at several nesting depths; the linter\'s report must equal the model\'s '
+                '(line, target, value, suggestion text) and every suggested line is parsed and run by the real front end and interpreter and '
+                'must give the target the reported value; non-trivial = at least one diagnostic')
+    lintjob(run, 'lint', 'lint')
+
+
+def C19(run):
+    run.rule = ('the full report (both passes, stable order by line, pass order on ties) of every program of the lint family incl. all pairs '
+                '(thorough: triples) of 19 mention-order statements must equal the model; TLC checks sortedness, tie order and the repeated-'
+                'identifier definition on the model; the program must be unchanged and the linter must not panic')
+    lintjob(run, 'lint', 'lint')
+
+
 PROPS = {
     'C01': (C01, 'model_checking'),
     'C03': (C03, 'model_checking'),
@@ -220,6 +255,10 @@ PROPS = {
     'C09': (C09, 'model_checking'),
     'C10': (C10, 'model_checking'),
     'C15': (C15, 'model_checking'),
+    'C16': (C16, 'model_checking'),
+    'C17': (C17, 'model_checking'),
+    'C18': (C18, 'model_checking'),
+    'C19': (C19, 'model_checking'),
     'C12': (C12, 'model_checking'),
     'C14': (C14, 'model_checking'),
 }
